@@ -362,6 +362,27 @@ func TestC05(t *testing.T) {
 		checkStream(c, ctx, msgs, cuts, trunc, "random")
 	})
 
+	// 2a. a stream that goes on for long: 70 000 small messages (more than any 16-bit counter
+	//     holds) in one piece or cut every 1000 bytes
+	rec.Suite("very-long-stream", rec.N(2, 8), func(c *ev.Case) {
+		var msgs [][]byte
+		for i := uint32(1); i <= 70000; i++ {
+			msgs = append(msgs, seqMsg(i+uint32(c.I)<<20, []int{0, 12, 16}[i%3]))
+		}
+		var cuts []int
+		if c.I%2 == 1 {
+			total := 0
+			for _, m := range msgs {
+				total += len(m)
+			}
+			for k := 1000; k < total; k += 1000 {
+				cuts = append(cuts, k)
+			}
+		}
+		c.Class("very-long-stream/cut=%v", cuts != nil)
+		checkStream(c, ctx, msgs, cuts, -1, "very-long")
+	})
+
 	// 2b. one body above the 64 KiB growth step of the body reader, placed
 	//     first, in the middle or last among small messages
 	//     (up to the largest message the 24-bit length field allows: 0xFFFFFC bytes)
